@@ -316,10 +316,15 @@ def PyModuleIR.used (m : PyModuleIR) : List Name :=
     import statements left without a name disappear.  An imported name that one of the two
     assignments re-binds is kept (pyflakes reports it as "redefinition", not as "unused import").
     (autoflake is third-party: assumed, compared with the really written file by the harness.) -/
-def prunedImports (m : PyModuleIR) : List ImportE :=
-  (m.imports.map fun i =>
-      { i with names := i.names.filter fun n => m.used.contains n || n == m.tmName || n == m.svName }).filter
-    fun i => !i.names.isEmpty
+def pruneWith (keep : Name → Bool) (imports : List ImportE) : List ImportE :=
+  (imports.map fun i => { i with names := i.names.filter keep }).filter fun i => !i.names.isEmpty
+
+def keepName (m : PyModuleIR) (n : Name) : Bool := m.used.contains n || n == m.tmName || n == m.svName
+
+def prunedImports (m : PyModuleIR) : List ImportE := pruneWith (keepName m) m.imports
+
+/-- the module as `ast_to_str` writes it: same statements, unused imports removed -/
+def written (m : PyModuleIR) : PyModuleIR := { m with imports := prunedImports m }
 
 /-! ### Target dispatch (settings.py + main.graphql_schema) -/
 
